@@ -225,6 +225,17 @@ static Set rhumb_set(bool masks, bool T) {
 static std::vector<Set> tables_C09(bool T) { return {rhumb_set(false, T)}; }
 static std::vector<Set> tables_C12(bool T) { return {rhumb_set(true, T)}; }
 
+// one std::string shared by the calls of a sequence that write a code into a caller-supplied string (a result must not
+// depend on what the string held before)
+static std::string& gout() { static std::string s; return s; }
+static void add_shared_out_mgrs(Set& S) {
+  static const double XY[][4] = {{31, 1, 448251.8, 5411932.7}, {0, 1, 2e6 + 13, 2e6 + 7}, {38, 1, 444800.1, 3684700.9}};
+  for (auto& q : XY) for (int prec : {11, 5, 2, 0, -1}) {
+    const int zone = (int)q[0]; const bool np = q[1] != 0; const double x = q[2], y = q[3];
+    S.add("shared-out:MGRS::Forward(" + std::to_string(zone) + (np ? "n," : "s,") + num(x) + "," + num(y) + ",prec=" + std::to_string(prec) + ")", [=](Out& o) { MGRS::Forward(zone, np, x, y, prec, gout()); o << gout(); });
+  }
+  S.add("shared-out:MGRS::Forward(31n,NaN,5e6,prec=5)", [](Out& o) { MGRS::Forward(31, true, NaN, 5e6, 5, gout()); o << gout(); });
+}
 // ------------------------------------------------------------------------------------------ UTM/UPS, MGRS (C04, C05)
 static Set utm_set(bool T) {
   Set S; S.name = "utmups";
@@ -236,6 +247,11 @@ static Set utm_set(bool T) {
       int zone = -99; bool northp = false; double x = NaN, y = NaN, gamma = NaN, k = NaN;
       UTMUPS::Forward(lat, lon, zone, northp, x, y, gamma, k, setzone); o << zone << northp << x << y << gamma << k; });
   }
+  // the same integer longitude cell in different latitude bands (Norway / Svalbard exceptions apply to one of them only)
+  static const double ZZ[][2] = {{60, 4.5}, {66, 4.5}, {55.9, 4.5}, {80, 30.5}, {70, 30.5}, {75, 9.5}, {71.9, 9.5}, {-60, 4.5}, {60, 364.5}, {84, 30.5}};
+  for (auto& p : ZZ) { const double lat = p[0], lon = p[1];
+    S.add("UTMUPS::StandardZone" + tup({lat, lon}) + "+Forward", [=](Out& o) { o << UTMUPS::StandardZone(lat, lon) << UTMUPS::StandardZone(lat, lon, UTMUPS::UTM);
+      int zone = -99; bool northp = false; double x = NaN, y = NaN; UTMUPS::Forward(lat, lon, zone, northp, x, y); o << zone << northp << x << y; }); }
   static const double XY[][4] = {{31, 1, 5e5, 5.8e6}, {31, 0, 5e5, 5.8e6}, {0, 1, 2e6, 2e6}, {0, 0, 2.3e6, 1.7e6}, {56, 0, 3.3e5, 6.25e6}, {31, 1, 1.7e5, 0}, {32, 1, 5e5, 5.8e6}};
   for (auto& q : XY) {
     const int zone = (int)q[0]; const bool np = q[1] != 0; const double x = q[2], y = q[3];
@@ -265,6 +281,7 @@ static Set mgrs_set(bool T) {
       int zone = -99, prec = -99; bool np = false; double x = NaN, y = NaN; MGRS::Reverse(ms, zone, np, x, y, prec, centerp); o << zone << np << x << y << prec; });
   }
   S.add("MGRS::Check()", [=](Out& o) { MGRS::Check(); o << 1.0; });
+  add_shared_out_mgrs(S);
   return S;
 }
 static std::vector<Set> tables_C04(bool T) { return {utm_set(T)}; }
@@ -381,6 +398,7 @@ static Set text_set(bool T) {
     S.add("GeoCoords(" + gs + ").reps", [=](Out& o) { GeoCoords c(gs); o << c.Latitude() << c.Longitude() << c.Easting() << c.Northing() << c.Zone() << c.Northp() << c.Convergence() << c.Scale()
                                                         << c.GeoRepresentation(3) << c.DMSRepresentation(2, true, ':') << c.MGRSRepresentation(2) << c.UTMUPSRepresentation(1) << c.AltUTMUPSRepresentation(true, 1) << c.AltMGRSRepresentation(0); });
   }
+  add_shared_out_mgrs(S);
   return S;
 }
 static std::vector<Set> tables_C10(bool T) { return {text_set(T)}; }
@@ -502,6 +520,11 @@ static Set grid_set(bool T) {
   S.add("OSGB::Forward(58.5,-6.2)", [](Out& o) { double x, y; OSGB::Forward(58.5, -6.2, x, y); o << x << y; });
   for (int prec : {0, 2, 5, 11}) S.add("OSGB::GridReference(434123.4,256789.1,prec=" + std::to_string(prec) + ")+GridReference^-1", [=](Out& o) { std::string g; OSGB::GridReference(434123.4, 256789.1, prec, g); double x, y; int p; OSGB::GridReference(g, x, y, p, true); o << g << x << y << p; });
   S.add("OSGB::GridReference^-1(SP 34 56)", [](Out& o) { double x, y; int p; OSGB::GridReference("SP 34 56", x, y, p, false); o << x << y << p; });
+  for (int prec : {11, 3, 0, -1}) S.add("shared-out:Georef::Forward(57.64911,10.40744,prec=" + std::to_string(prec) + ")", [=](Out& o) { Georef::Forward(57.64911, 10.40744, prec, gout()); o << gout(); });
+  for (int prec : {2, 1, 0}) S.add("shared-out:GARS::Forward(57.64911,10.40744,prec=" + std::to_string(prec) + ")", [=](Out& o) { GARS::Forward(57.64911, 10.40744, prec, gout()); o << gout(); });
+  for (int len : {18, 7, 1}) S.add("shared-out:Geohash::Forward(57.64911,10.40744,len=" + std::to_string(len) + ")", [=](Out& o) { Geohash::Forward(57.64911, 10.40744, len, gout()); o << gout(); });
+  for (int prec : {11, 4, 0}) S.add("shared-out:OSGB::GridReference(434123.4,256789.1,prec=" + std::to_string(prec) + ")", [=](Out& o) { OSGB::GridReference(434123.4, 256789.1, prec, gout()); o << gout(); });
+  S.add("shared-out:Georef::Forward(NaN,10,prec=2)", [](Out& o) { Georef::Forward(NaN, 10, 2, gout()); o << gout(); });
   S.add("OSGB::CentralScale+Origin", [](Out& o) { o << OSGB::CentralScale() << OSGB::OriginLatitude() << OSGB::OriginLongitude() << OSGB::FalseNorthing() << OSGB::FalseEasting() << OSGB::EquatorialRadius() << OSGB::Flattening(); });
   return S;
 }
